@@ -50,6 +50,9 @@ import r57_roleslot
 import r60_evenguard
 import r59_distinctidx
 import r61_guessreturn
+import r62_operatorarg
+import r63_requiredguess
+import r64_wdlayout
 import r06_validate
 import r07_cache
 import r08_toporder
@@ -264,6 +267,18 @@ def r56(ctx, prop):
 
 def r57(ctx, prop):
     return r57_roleslot.run(ctx.F())
+
+
+def r64(ctx, prop):
+    return r64_wdlayout.run(ctx.F())
+
+
+def r63(ctx, prop):
+    return r63_requiredguess.run(ctx.F())
+
+
+def r62(ctx, prop):
+    return r62_operatorarg.run(ctx.F())
 
 
 def r61(ctx, prop):
@@ -521,14 +536,14 @@ PROPERTY_RULES = {
     "C02": [r3, r7, r39, r40, r1_sinks, r20b],
     "C10": [r10_selector, r8, r1_idealgas, r3, r19, r25, r29, r10_selconst, r1_guard_idealgas, r44],
     "C14": [r14, r13, r10_identifier, r21, r27, r28, r38, r40, r47, r20b, r49],
-    "C12": [r4, r16, r50, r54, r24, r61],
-    "C19": [r55, r1_functional, r8, r21, r10_selconst],
+    "C12": [r4, r16, r50, r54, r24, r61, r63],
+    "C19": [r55, r1_functional, r8, r21, r10_selconst, r62],
     "C15": [r15],
-    "C16": [r51, r52, r53, r56, r48, r10_selconst, r55],
+    "C16": [r51, r52, r53, r56, r48, r10_selconst, r55, r64],
     "C20": [r10_transport, r21, r25, r24, r34, r10_selconst, r41, r47, r60],
     "C01": [r1_all, r2, r7, r8, r4, r25, r24, r26, r28, r29, r39, r40, r44, r20b],
     "C13": [r1_guard, r8, r21, r32, r36, r43],
-    "C17": [r1_functional, r8, r22, r25, r21, r26, r28, r33, r40, r44, r47, r48],
+    "C17": [r1_functional, r8, r22, r25, r21, r26, r28, r33, r40, r44, r47, r48, r62],
     "C11": [r9, r7],
     "C03": [r6, r17, r4, r5, r25, r24, r26, r31, r40, r43, r44],
     "C04": [r4, r16, r25, r24, r26, r31, r10_selconst, r40, r46, r50],
